@@ -143,6 +143,25 @@ fn simd_oracle(s: &mut Session, rng: &mut Rng, max_len: usize, rounds: usize) {
             let srclen = rng.below(len as u64 + 8) as usize;
             let src = rng.bytes(srclen);
             for f in &subsets {
+                // K: the same calls as request lines for the lane-loop model (mask bit0 = sse2,
+                // bit2 = avx2; sse4.1 / avx512 do not influence these helpers)
+                let mask = (f.sse2 as u32) | ((f.sse4_1 as u32) << 1) | ((f.avx2 as u32) << 2) | ((f.avx512 as u32) << 3);
+                if r == 0 || len % 16 < 2 || len % 16 == 15 {
+                    let o = |x: std::cmp::Ordering| match x { std::cmp::Ordering::Less => "lt", std::cmp::Ordering::Equal => "eq", std::cmp::Ordering::Greater => "gt" };
+                    let g = catch(std::panic::AssertUnwindSafe(|| f.vectorized_memcmp(&a, &b))).map(|x| o(x).to_string()).unwrap_or("panic".into());
+                    s.line(&format!("memcmp {mask} {} {}", hex(&a), hex(&b)), &g);
+                    let g = catch(std::panic::AssertUnwindSafe(|| f.batch_mem_equal(&[(&a[..], &b[..])])[0])).map(|x| x.to_string()).unwrap_or("panic".into());
+                    s.line(&format!("memeq {mask} {} {}", hex(&a), hex(&b)), &g);
+                    let g = catch(std::panic::AssertUnwindSafe(|| f.vectorized_memmem(&hay, &needle))).map(|x| x.map(|p| p.to_string()).unwrap_or("none".into())).unwrap_or("panic".into());
+                    s.line(&format!("memmem {mask} {} {}", hex(&hay), hex(&needle)), &g);
+                    let mut d = a.clone();
+                    let g = catch(std::panic::AssertUnwindSafe(|| { f.simd_memset(&mut d, val); })).map(|_| hex(&d)).unwrap_or("panic".into());
+                    s.line(&format!("memset {mask} {} {}", hex(&a), val), &g);
+                    let mut d = a.clone();
+                    let g = catch(std::panic::AssertUnwindSafe(|| { f.simd_memcpy(&mut d, &src); })).map(|_| hex(&d)).unwrap_or("panic".into());
+                    s.line(&format!("memcpy {mask} {} {}", hex(&a), hex(&src)), &g);
+                    s.tally("simd.model_lines");
+                }
                 let case = format!("simd len={len} kind={kind} feat=[{}]", fname(f));
                 s.case(Some(&format!("{len}/{kind}/{}", fname(f))));
                 s.tally("simd.case");
